@@ -30,7 +30,49 @@ pub fn lanes() -> Vec<Lane> {
         Lane { name: "ladder-check", count: |_| 1, run: ladder_lane },
         Lane { name: "single", count: |_| (6 * 9 * 10 * 5) as u64, run: single_lane },
         Lane { name: "fields", count: |c| if c.thorough() { 200_000 } else { 20_000 }, run: fields_lane },
+        Lane { name: "long-numbers", count: |_| (BIG.len() * BIG.len() * 5) as u64, run: long_numbers_lane },
     ]
+}
+
+/// Versions with a numeric component beyond 32 bits (dates with a time stamp are common: 1.0+git20240101120000),
+/// strictly increasing. Debian compares digit runs as numbers of any length.
+const BIG: [&str; 5] = ["1.0+git20240101120000", "1.0+git20240102093000", "20240101120000", "20240101120001-1", "1:0.99999999999"];
+
+fn long_numbers_lane(ctx: &mut Ctx, idx: u64) {
+    let n = BIG.len() as u64;
+    let (i, j, o) = ((idx % n) as usize, ((idx / n) % n) as usize, (idx / (n * n)) as usize);
+    let op = OPS[1 + o].unwrap();
+    let text = format!("p0 ({} {})", op, BIG[j]);
+    let want = match op {
+        "<<" => i < j,
+        "<=" => i <= j,
+        "=" => i == j,
+        ">=" => i >= j,
+        _ => i > j,
+    };
+    let res = guard(1024, || {
+        let inst = Version::from_str(BIG[i]).map_err(|e| e.to_string())?;
+        let closure = |name: &str| -> Option<Version> { if name == "p0" { Some(inst.clone()) } else { None } };
+        let l = ll::Relations::from_str(&text)?;
+        let y = lossy::Relations::from_str(&text)?;
+        Ok::<_, String>(vec![("lossless::Relations::satisfied_by(closure)", l.satisfied_by(closure)), ("lossy::Relations::satisfied_by(closure)", y.satisfied_by(closure))])
+    });
+    ctx.count("evaluations");
+    match res {
+        Err(f) => ctx.violation(&format!("{}|satisfied_by|numeric-component-beyond-32-bits", f.class()), json!({"field": text, "installed": BIG[i], "failure": f.json()})),
+        Ok(Err(e)) => ctx.violation("rejected|satisfied_by|numeric-component-beyond-32-bits", json!({"field": text, "installed": BIG[i], "error": e})),
+        Ok(Ok(v)) => {
+            for (who, got) in v {
+                if got != want {
+                    ctx.violation(&format!("wrong-answer|{}|numeric-component-beyond-32-bits", who), json!({"field": text, "installed": BIG[i], "expected": want, "got": got}));
+                }
+            }
+        }
+    }
+    ctx.distinct_exact += 1;
+    if idx % 13 == 0 {
+        ctx.sample(|| json!({"field": text, "installed": BIG[i], "expected": want}));
+    }
 }
 
 fn holds(op: Option<&str>, installed: Option<usize>, required: usize) -> bool {
